@@ -55,6 +55,11 @@ func symCert(role int, label string) *certModel {
 	}
 	// SubjectKeyIdentifier extension value = OCTET STRING ski
 	c.Extensions = []pkix.Extension{{Id: oidSKI, Value: append([]byte{0x04, byte(len(m.ski))}, m.ski...)}}
+	if c.KeyUsage != 0 {
+		// the keyUsage extension as it sits in the certificate: critical or not (the CA's choice) - a key
+		// usage that lacks cRLSign disqualifies the certificate either way
+		c.Extensions = append(c.Extensions, pkix.Extension{Id: asn1.ObjectIdentifier{2, 5, 29, 15}, Critical: verifrt.NondetBool("keyUsageCritical_" + label), Value: []byte{0x03, 0x02, 0x01, 0x06}})
+	}
 	if role == 0 && verifrt.Choose(2) == 1 {
 		c.Extensions = nil // an end-entity certificate without subject key identifier
 		m.ski = []byte{0, 0}
